@@ -2,9 +2,11 @@ package main
 
 import (
 	"fmt"
+	"strings"
 	"time"
 
 	"github.com/rs/zerolog"
+	zlog "github.com/rs/zerolog/log"
 
 	"verif/drv"
 	"verif/oracle/jsonstrict"
@@ -35,6 +37,8 @@ func stepAlphabet(depth int) []seqx.Step {
 		{Op: "With", Fields: []seqx.Field{{M: "EmbedObject", Form: "val", Sub: nil}, {M: "Err", Val: fmt.Errorf("ce%d", depth)}}},
 		{Op: "Hook", Hooks: []int{depth*10 + 4, depth*10 + 5, depth*10 + 6}},
 		{Op: "Reset"},
+		{Op: "With", Fields: []seqx.Field{{M: "Str", Key: k("big"), Val: strings.Repeat("B", 510)}}},
+		{Op: "HookChain", Fields: []seqx.Field{{M: "Dict", Key: k("hd"), Sub: []seqx.Field{{M: "Int", Key: "n", Val: depth}}}, {M: "Array", Key: k("ha"), Form: "arr", Sub: []seqx.Field{{M: "Str", Val: "x"}}}, {M: "Timestamp"}}},
 	}
 }
 
@@ -122,11 +126,45 @@ func runC03() {
 		}
 		rec(0)
 		_ = states
-		// forks: from every chain of <= 3 steps (4 in thorough), two children of the same parent by every
+		// every single global-setting deviation x chains of <= 2 steps x the reduced event forms
+		nset := len(seqx.AllSettings())
+		for si := 0; si < nset; si++ {
+			var srec func(depth int)
+			srec = func(depth int) {
+				for _, ef := range redForms {
+					idx++
+					if idx%int64(n) != int64(shard) {
+						continue
+					}
+					p := seqx.Program{Settings: []int{si}, Steps: append([]seqx.Step{}, chain...), Entry: ef.entry, Fields: ef.fields, Final: ef.final}
+					out := seqx.Run(p)
+					r.Transitions += int64(len(chain) + 1)
+					checkC03(r, p, out)
+				}
+				if depth == 2 {
+					return
+				}
+				for _, s := range stepAlphabet(depth) {
+					chain = append(chain, s)
+					srec(depth + 1)
+					chain = chain[:len(chain)-1]
+				}
+			}
+			chain = chain[:0]
+			srec(0)
+			if r.TimeUp() {
+				break
+			}
+		}
+		// the package-level helpers of zerolog/log must derive exactly what the methods derive
+		if shard == 0 {
+			logHelpers(r)
+		}
+		// forks: from every chain of <= 2 steps (3 in thorough), two children of the same parent by every
 		// ordered pair of steps; the second child is created (and logs) before the first one logs
-		forkDepth := 3
+		forkDepth := 2
 		if tier == "thorough" {
-			forkDepth = 4
+			forkDepth = 3
 		}
 		var frec func(depth int)
 		frec = func(depth int) {
@@ -253,4 +291,78 @@ func gatePasses(p seqx.Program) bool {
 		}
 	}
 	return lvl >= min
+}
+
+type memW struct{ b []byte }
+
+func (m *memW) Write(p []byte) (int, error) { m.b = append(m.b, p...); return len(p), nil }
+
+type constHook struct{}
+
+func (constHook) Run(e *zerolog.Event, l zerolog.Level, m string) { e.Str("gh", m) }
+
+// logHelpers: log.With / Level / Sample / Hook / Output / Err / Trace..Log / WithLevel / Print* on the global
+// logger must give the same bytes as the corresponding methods on the same Logger value.
+func logHelpers(r *seq.Run) {
+	for _, lvl := range []zerolog.Level{zerolog.TraceLevel, zerolog.InfoLevel, zerolog.ErrorLevel} {
+		wa, wb := &memW{}, &memW{}
+		base := func(w *memW) zerolog.Logger { return zerolog.New(w).With().Str("g", "base").Logger().Level(lvl) }
+		a := base(wa)
+		zlog.Logger = base(wb)
+		e := fmt.Errorf("boom")
+		// methods
+		a.Trace().Msg("t")
+		a.Debug().Msg("d")
+		a.Info().Msg("i")
+		a.Warn().Msg("w")
+		a.Error().Msg("e")
+		a.Err(e).Msg("x")
+		a.Err(nil).Msg("y")
+		a.Log().Msg("l")
+		a.WithLevel(zerolog.WarnLevel).Msg("wl")
+		a.Print("p", 1)
+		a.Printf("%d", 2)
+		la := a.With().Int("n", 1).Logger()
+		la.Info().Msg("with")
+		lb := a.Level(zerolog.WarnLevel)
+		lb.Info().Msg("no")
+		lb.Warn().Msg("yes")
+		lc := a.Hook(constHook{})
+		lc.Error().Msg("hooked")
+		ld := a.Sample(&zerolog.BasicSampler{N: 2})
+		ld.Error().Msg("s1")
+		ld.Error().Msg("s2")
+		ld.Error().Msg("s3")
+		le := a.Output(wa)
+		le.Error().Msg("out")
+		// helpers
+		zlog.Trace().Msg("t")
+		zlog.Debug().Msg("d")
+		zlog.Info().Msg("i")
+		zlog.Warn().Msg("w")
+		zlog.Error().Msg("e")
+		zlog.Err(e).Msg("x")
+		zlog.Err(nil).Msg("y")
+		zlog.Log().Msg("l")
+		zlog.WithLevel(zerolog.WarnLevel).Msg("wl")
+		zlog.Print("p", 1)
+		zlog.Printf("%d", 2)
+		ha := zlog.With().Int("n", 1).Logger()
+		ha.Info().Msg("with")
+		hb := zlog.Level(zerolog.WarnLevel)
+		hb.Info().Msg("no")
+		hb.Warn().Msg("yes")
+		hc := zlog.Hook(constHook{})
+		hc.Error().Msg("hooked")
+		hd := zlog.Sample(&zerolog.BasicSampler{N: 2})
+		hd.Error().Msg("s1")
+		hd.Error().Msg("s2")
+		hd.Error().Msg("s3")
+		he := zlog.Output(wb)
+		he.Error().Msg("out")
+		r.Eval("loghelpers"+string(wb.b), true)
+		if string(wa.b) != string(wb.b) {
+			r.Violation("", "log-helpers", fmt.Sprintf("logger level %d: the package-level helpers of zerolog/log emit\n%s\nthe same methods on the same Logger value emit\n%s", lvl, wb.b, wa.b), "log helpers")
+		}
+	}
 }
